@@ -29,7 +29,7 @@ try:
         res['ctest_tail'] = o[-700:]; import re as _re; m = _re.search(r'(\d+)% tests passed, (\d+) tests failed out of (\d+)', o); res['tests_pass_with_change'] = bool(m and m.group(1) == '100' and m.group(3) == '317')
         shutil.rmtree(os.path.join(wt, '_build'), ignore_errors=True)
         rc1, o1 = sh('bash out/run_demo.sh', cwd=wt, timeout=900); res['demo_on_changed_rc'] = rc1; res['demo_on_changed_tail'] = o1[-300:]
-        env = dict(os.environ, VERIF_REPO=wt)
+        env = dict(os.environ, VERIF_REPO=wt, VERIF_EVIDENCE_DIR='/tmp/seedeval_evidence')
         t = time.time(); rc2, o2 = sh('./check %s' % prop, cwd='/verif', timeout=3000, env=env)
         res['check_rc'] = rc2; res['check_tail'] = o2[-600:]; res['check_caught'] = ('VIOLATION property=%s' % prop in o2); res['check_wall_s'] = round(time.time() - t, 1)
 finally:
